@@ -48,6 +48,15 @@ def run(ctx):
     bp = vlib.tlc(ctx, "agwpe", "AgwpeMux", "AgwpeMux_byport.cfg")
     if bp.violated != "FlushSound":
         raise vlib.Undecided("the deviation MatchByPort of AgwpeMux.tla no longer violates FlushSound")
+    # polls that give up before their reply has come: the late reply must not stop the demux (one-shot requests have room
+    # for their one frame); without that room the demux goroutine blocks for ever
+    vlib.design_check(ctx, "agwpe", "AgwpeMux", "AgwpeMux_timeout.cfg")
+    lv2 = vlib.tlc(ctx, "agwpe", "AgwpeMux", "AgwpeMux_timeoutlive.cfg")
+    if not lv2.ok:
+        raise vlib.Undecided("AgwpeMux_timeoutlive.cfg: %s" % (lv2.error or lv2.out[-500:]))
+    ub = vlib.tlc(ctx, "agwpe", "AgwpeMux", "AgwpeMux_unbuffered.cfg")
+    if ub.violated != "DemuxLive":
+        raise vlib.Undecided("the deviation of AgwpeMux.tla (one-shot requests without room for their frame) no longer violates DemuxLive")
     obs = vlib.tlc(ctx, "agwpe", "AgwpeTx", "AgwpeTx_liveness.cfg")
     ctx.notes.append("AgwpeTx_liveness.cfg: WriteReturns %s (observation, not part of C13: a TNC that transmits a frame before the next poll is never "
                      "seen with an outstanding frame)" % ("violated" if obs.error else "holds"))
